@@ -23,6 +23,7 @@ type Stream struct {
 	cursor                int64
 	filledBuffer          bool
 	allRead               bool
+	readErr               error // error other than io.EOF returned by the reader, not yet reported
 	UseNumber             bool
 	DisallowUnknownFields bool
 	Option                *Option
@@ -64,11 +65,23 @@ func (s *Stream) PrepareForDecode() error {
 			if s.read() {
 				continue
 			}
+			if err := s.TakeReadError(); err != nil {
+				return err
+			}
 			return io.EOF
 		}
 		break
 	}
 	return nil
+}
+
+// TakeReadError returns the error (other than io.EOF) that ended reading, if any,
+// and forgets it. Input cut short by a failing reader must not be mistaken for
+// the end of the document.
+func (s *Stream) TakeReadError() error {
+	err := s.readErr
+	s.readErr = nil
+	return err
 }
 
 func (s *Stream) totalOffset() int64 {
@@ -178,6 +191,9 @@ func (s *Stream) Token() (interface{}, error) {
 		}
 	}
 END:
+	if err := s.TakeReadError(); err != nil {
+		return nil, err
+	}
 	return nil, io.EOF
 }
 
@@ -228,6 +244,7 @@ func (s *Stream) read() bool {
 	if err == io.EOF {
 		s.allRead = true
 	} else if err != nil {
+		s.readErr = err
 		return false
 	}
 	return true
